@@ -155,18 +155,18 @@ theorem blockOK_lookup (R : List (Bytes × Int)) (b : Block) (h : blockOK R b = 
 
 theorem fold_none (R : List (Bytes × Int)) (z : Bytes) (hz : lookup R z = none) :
     ∀ (L : List Block) (acc : Int), (∀ b ∈ L, blockOK R b = true) →
-      L.foldl (fun acc b => (lookup b.bal z).getD acc) acc = acc
+      L.foldl (fun acc b => ((lookup b.bal z).map stored).getD acc) acc = acc
   | [], _, _ => rfl
   | b :: L, acc, h => by
     simp only [List.foldl_cons]
     have hb := (blockOK_lookup R b (h b (by simp)) z).1
     cases hl : lookup b.bal z with
     | some a => have := hb a hl; rw [hz] at this; cases this
-    | none => simp only [Option.getD_none]; exact fold_none R z hz L acc (fun x hx => h x (by simp [hx]))
+    | none => simp only [Option.map_none, Option.getD_none]; exact fold_none R z hz L acc (fun x hx => h x (by simp [hx]))
 
 theorem fold_some (R : List (Bytes × Int)) (z : Bytes) (r : Int) (hz : lookup R z = some r) :
-    ∀ (L : List Block) (acc : Int), (∀ b ∈ L, blockOK R b = true) → (acc = r ∨ (L ≠ [] ∧ r ≠ 0)) →
-      L.foldl (fun acc b => (lookup b.bal z).getD acc) acc = r
+    ∀ (L : List Block) (acc : Int), (∀ b ∈ L, blockOK R b = true) → (acc = stored r ∨ (L ≠ [] ∧ r ≠ 0)) →
+      L.foldl (fun acc b => ((lookup b.bal z).map stored).getD acc) acc = stored r
   | [], acc, _, hacc => by
     rcases hacc with h | h
     · simpa using h
@@ -180,12 +180,12 @@ theorem fold_some (R : List (Bytes × Int)) (z : Bytes) (r : Int) (hz : lookup R
       have := hb.1 a hl
       rw [hz] at this
       cases this
-      simp only [Option.getD_some]
-      exact fold_some R z r hz L r hL (Or.inl rfl)
+      simp only [Option.map_some, Option.getD_some]
+      exact fold_some R z r hz L (stored r) hL (Or.inl rfl)
     | none =>
       have hr0 := hb.2 r hz hl
-      simp only [Option.getD_none]
-      have : acc = r := by
+      simp only [Option.map_none, Option.getD_none]
+      have : acc = stored r := by
         rcases hacc with h' | h'
         · exact h'
         · exact absurd hr0 h'.2
@@ -198,11 +198,11 @@ theorem checkAccountBalance_blocks (c : Config) (A : Bytes) (R : List (Bytes × 
 
 theorem held_required (c : Config) (A : Bytes) (R : List (Bytes × Int)) (h : checkAccountBalance c A R = true)
     (z : Bytes) (r : Int) (hz : lookup R z = some r) (hex : r = 0 ∨ ∃ b ∈ c.blocks, b.addr = A) :
-    ledgerBalance c A z = r := by
+    ledgerBalance c A z = stored r := by
   unfold ledgerBalance
   apply fold_some R z r hz _ 0 (checkAccountBalance_blocks c A R h)
   by_cases hr : r = 0
-  · exact Or.inl hr.symm
+  · left; subst hr; rfl
   · rcases hex with h0 | ⟨b, hb, hA⟩
     · exact absurd h0 hr
     · refine Or.inr ⟨?_, hr⟩
@@ -270,7 +270,18 @@ theorem givenSum_blocks (bs : List Block) (z : Bytes) (hwf : ∀ b ∈ bs, (b.ba
     simp only [List.flatMap_cons, List.filter_append, List.map_append, isum_append, List.map_cons, isum]
     rw [lookup_sum_nodup b.bal z (hwf b (by simp)), ih (fun x hx => hwf x (by simp [hx]))]
 
-theorem ledgerSupply_eq_givenSum (c : Config) (hwf : c.WF) (hnd : (c.blocks.map (·.addr)).Nodup) (z : Bytes) :
+theorem stored_nonneg (a : Int) (h : 0 ≤ a) : stored a = a := by unfold stored; omega
+
+theorem lookup_stored_nonneg (m : List (Bytes × Int)) (z : Bytes) (h : ∀ e ∈ m, 0 ≤ e.2) :
+    ((lookup m z).map stored).getD 0 = (lookup m z).getD 0 := by
+  cases hl : lookup m z with
+  | none => rfl
+  | some a =>
+    have := h _ (lookup_some_mem m z a hl)
+    simp [stored_nonneg a this]
+
+theorem ledgerSupply_eq_givenSum (c : Config) (hwf : c.WF) (hnn : c.NonNeg)
+    (hnd : (c.blocks.map (·.addr)).Nodup) (z : Bytes) :
     ledgerSupply c z = givenSum c z := by
   unfold ledgerSupply givenSum givenEntries
   rw [dedup_nodup _ hnd, givenSum_blocks c.blocks z hwf, List.map_map]
@@ -278,5 +289,6 @@ theorem ledgerSupply_eq_givenSum (c : Config) (hwf : c.WF) (hnd : (c.blocks.map 
   apply List.map_congr_left
   intro b hb
   simp only [Function.comp, ledgerBalance, filter_addr_nodup c.blocks hnd b hb, List.foldl_cons, List.foldl_nil]
+  exact lookup_stored_nonneg b.bal z (hnn b hb)
 
 end ZV.Genesis
